@@ -79,7 +79,22 @@ def grad_cases():
         cases += [("apply_constraint_chain(TotalPower,PAPR)", lambda: _Chain([K.TotalPowerConstraint(2.0), K.PAPRConstraint(max_papr=2.5)], "chain"), cplx, (2, 16)),
                   ("apply_constraint_chain(AveragePower)", lambda: _Chain([K.AveragePowerConstraint(0.7)], "chain"), cplx, (3, 12)),
                   ("combine_constraints(PAPR,AveragePower)", lambda: _Chain([K.PAPRConstraint(max_papr=2.5), K.AveragePowerConstraint(0.7)], "combine"), cplx, (2, 16))]
+    # one channel object applied twice before the backward pass (successive interference cancellation, feedback rounds, shared user channels)
+    for cplx in (False, True):
+        cases += [("AWGNChannel(snr) used twice", lambda: _Twice(C.AWGNChannel(snr_db=7.0)), cplx, (3, 12)),
+                  ("AWGNChannel(power) used twice", lambda: _Twice(C.AWGNChannel(avg_noise_power=0.3)), cplx, (2, 10)),
+                  ("LaplacianChannel(snr) used twice", lambda: _Twice(C.LaplacianChannel(snr_db=5.0)), cplx, (2, 10)),
+                  ("FlatFadingChannel(rayleigh,snr) used twice", lambda: _Twice(C.RayleighFadingChannel(coherence_time=3, snr_db=10.0)), cplx, (2, 9))]
     return cases
+
+
+class _Twice(torch.nn.Module):
+    def __init__(self, mod):
+        super().__init__()
+        self.mod = mod
+
+    def forward(self, x):
+        return self.mod(x) + 0.5 * self.mod(0.7 * x)
 
 
 class _Chain(torch.nn.Module):
